@@ -485,3 +485,15 @@ Section WithFacts.
     destruct (save_history_returns c fs w history) as (r & ->). cbn [pbind]. eauto.
   Qed.
 End WithFacts.
+
+(* a non-empty table written by the export is the table load_currency_data returns *)
+Theorem exported_table_is_used (repr : Q -> string) (pf : pyfloat_t) c fs x t :
+  (forall q, pf (repr q) = Some q) -> (forall q, clean (repr q)) ->
+  Forall (fun c => clean (c_sym c) /\ clean (c_name c) /\ 0 < c_rate c) (x :: t) ->
+  fs (path_of c "currency-path") = Bytes true (export_text repr (x :: t)) ->
+  load_currency_data pf c fs = POk (x :: t, true, []).
+Proof.
+  intros H1 H2 F S. unfold load_currency_data. rewrite S.
+  cbn [path_exists open_read pbind try_].
+  rewrite (export_text_mode repr H2 _ F), (export_parse repr pf H1 H2 _ F). reflexivity.
+Qed.
